@@ -18,32 +18,45 @@ import (
 // Each case is its own sub-case, so a crash in a background goroutine is attributed exactly.
 
 type qlenCase struct {
-	p    *proto
-	opt  string
-	v    val
-	mode string
+	p         *proto
+	opt       string
+	v         val
+	mode      string
+	tr        string
+	objListen bool
 }
 
-var qlenCasesCache []qlenCase
+var qlenCasesCache = map[string][]qlenCase{}
 
-func qlenCases() []qlenCase {
-	if qlenCasesCache != nil {
-		return qlenCasesCache
+// quick: inproc, object listens.  thorough: additionally tcp and ipc, and the object dialing.
+func qlenCases(tier string) []qlenCase {
+	if c, ok := qlenCasesCache[tier]; ok {
+		return c
+	}
+	type link struct {
+		tr     string
+		listen bool
+	}
+	links := []link{{"inproc", true}}
+	if tier == "thorough" {
+		links = []link{{"inproc", true}, {"inproc", false}, {"tcp", true}, {"tcp", false}, {"ipc", true}, {"ipc", false}}
 	}
 	var cs []qlenCase
-	for _, p := range protos {
-		for _, opt := range []string{mangos.OptionReadQLen, mangos.OptionWriteQLen} {
-			for _, v := range values() {
-				if v.class != "int" {
-					continue
-				}
-				for _, mode := range []string{"idle", "loaded"} {
-					cs = append(cs, qlenCase{p, opt, v, mode})
+	for _, l := range links {
+		for _, p := range protos {
+			for _, opt := range []string{mangos.OptionReadQLen, mangos.OptionWriteQLen} {
+				for _, v := range values() {
+					if v.class != "int" {
+						continue
+					}
+					for _, mode := range []string{"idle", "loaded"} {
+						cs = append(cs, qlenCase{p, opt, v, mode, l.tr, l.listen})
+					}
 				}
 			}
 		}
 	}
-	qlenCasesCache = cs
+	qlenCasesCache[tier] = cs
 	return cs
 }
 
@@ -51,7 +64,14 @@ func runQlenCase(w *wctx, q qlenCase) {
 	p := q.p
 	call := fmt.Sprintf("%s.SetOption(%q,%s)", p.name, q.opt, q.v.label)
 	label := fmt.Sprintf("%s on a connected socket, then traffic [%s]", call, q.mode)
-	input := fmt.Sprintf("object: %s.NewSocket() listening on inproc, cooked %s peer dialed in, PipeEventHooks on both; mode %s; call: %s; then a round trip", p.name, p.peer, q.mode, call)
+	if q.tr != "inproc" || !q.objListen {
+		label += fmt.Sprintf(" [%s, object %s]", q.tr, map[bool]string{true: "listens", false: "dials"}[q.objListen])
+	}
+	role := "listening on"
+	if !q.objListen {
+		role = "dialing a cooked peer over"
+	}
+	input := fmt.Sprintf("object: %s.NewSocket() %s %s, cooked %s peer, PipeEventHooks on both; mode %s; call: %s; then a round trip", p.name, role, q.tr, p.peer, q.mode, call)
 	if !w.begin(label) {
 		return
 	}
@@ -68,7 +88,7 @@ func runQlenCase(w *wctx, q qlenCase) {
 			})
 		}
 	}
-	c, err := connectRetry(p, "inproc", true, pre)
+	c, err := connectRetry(p, q.tr, q.objListen, pre)
 	if err != nil {
 		w.setupErr(err)
 		return
@@ -96,7 +116,12 @@ func runQlenCase(w *wctx, q qlenCase) {
 	}
 
 	var serr error
-	g := guard(func() { serr = c.obj.SetOption(q.opt, q.v.v) })
+	g := guardHuge(q.v.label == "1<<31", func() {
+		if q.v.label == "1<<31" {
+			hugeBarrier()
+		}
+		serr = c.obj.SetOption(q.opt, q.v.v)
+	})
 	switch {
 	case g.panicked:
 		w.fail("option-panic:"+call, "panic", input, "SetOption panicked: %s", g.pval)
@@ -109,18 +134,28 @@ func runQlenCase(w *wctx, q qlenCase) {
 		return
 	}
 	n := q.v.v.(int)
-	w.nontrivial(fmt.Sprintf("%s|%s|%s|%s", p.name, q.opt, q.v.label, q.mode))
+	w.nontrivial(fmt.Sprintf("%s|%s|%s|%s|%s|%v", p.name, q.opt, q.v.label, q.mode, q.tr, q.objListen))
 	w.count("resized")
 
 	wait := 10 * time.Second
-	if n == 0 {
-		wait = time.Second // only to produce traffic; an unbuffered queue need not move anything
-	}
-	after := c.move(wait)
 	sfx := ""
 	if n == 0 {
+		wait = time.Second // only to produce traffic; an unbuffered queue need not move anything
 		sfx = "=0"
+		// one message towards the object while nobody receives, then a plain option call:
+		// with an unbuffered queue the message may wait, the socket must stay responsive
+		c.setStepDeadlines()
+		if p.canRecv() {
+			peerSend(c.peer, "zero-probe")
+			time.Sleep(60 * time.Millisecond)
+		}
+		if g := guard(func() { _, _ = c.obj.GetOption(q.opt) }); g.hung {
+			w.fail(fmt.Sprintf("qlen-hang:%s:%s=0:%s.GetOption", p.name, q.opt, p.name), "hang", input,
+				"after the resize to 0 and one message from the peer, GetOption did not return within %v", callWatchdog)
+			return
+		}
 	}
+	after := c.move(wait)
 	switch {
 	case after.panic != "":
 		w.fail(fmt.Sprintf("qlen-panic:%s:%s%s", p.name, q.opt, sfx), "panic", input, "after the resize: %s", after.panic)
@@ -145,9 +180,9 @@ func runQlenCase(w *wctx, q qlenCase) {
 func qlenScenario() *scenario {
 	return &scenario{
 		name:   "qlen-resize-connected",
-		par:    14,
-		ncases: func(string) int { return len(qlenCases()) },
-		run:    func(tier string, idx int, w *wctx) { runQlenCase(w, qlenCases()[idx]) },
-		huge:   func(tier string, idx int) bool { return qlenCases()[idx].v.label == "1<<31" },
+		par:    28,
+		ncases: func(tier string) int { return len(qlenCases(tier)) },
+		run:    func(tier string, idx int, w *wctx) { runQlenCase(w, qlenCases(tier)[idx]) },
+		huge:   func(tier string, idx int) bool { return qlenCases(tier)[idx].v.label == "1<<31" },
 	}
 }
